@@ -211,9 +211,16 @@ class Oracle:
         self.inp = case_input
         self.in_envelope = True
 
+    PER_KEY = {}
+
     def bad(self, key, what, expected=None, observed=None):
         if self.in_envelope:
-            self.chk.violation(key, what, self.inp, expected, observed)
+            # core keeps the first 50 violations of a run: leave room for every failure class (first = smallest case)
+            n = Oracle.PER_KEY.get(key, 0)
+            Oracle.PER_KEY[key] = n + 1
+            self.chk.count("violation:" + key)
+            if n < 4 or any(k.get("key") == key for k in self.chk.known):
+                self.chk.violation(key, what, self.inp, expected, observed)
         else:
             self.chk.count("observed-outside-envelope:" + key)
 
@@ -682,6 +689,7 @@ def run(chk):
     rng = chk.rng
     thorough = chk.tier == "thorough"
 
+    Oracle.PER_KEY = {}
     minimal_independence_probe(chk, C, cp)
 
     cases = systematic_cases()
